@@ -390,8 +390,15 @@ fn exec(p: &Params, steps: &[SStep]) -> Result<Option<Exec>, String> {
                             }
                         };
                         let mut rnd = false;
+                        // the handler's own response is already "TC, no records but OPT": a slipped
+                        // copy is the same octets, so sent and slipped cannot be told apart
+                        let bare = rinfo.map(|i| i.tc && i.an == 0 && i.ns == 0 && i.ar == i.opt).unwrap_or(false);
                         let tok = match (rlen, got) {
                             _ if panicked => "panic".to_string(),
+                            (Some(rn), Some(n)) if bare && buf[..n] == rbuf[..rn] => {
+                                rnd = true;
+                                "pass".to_string()
+                            }
                             (None, None) => "none".to_string(),
                             (None, Some(_)) => "ghost".to_string(),
                             (Some(_), None) => {
@@ -423,10 +430,10 @@ fn exec(p: &Params, steps: &[SStep]) -> Result<Option<Exec>, String> {
                         toks.push(tok);
                         let hexname = |n: Option<&Name>| n.map(|n| hex(n.wire_repr())).unwrap_or_else(|| "-".into());
                         parts.push(format!(
-                            "q,{},{},{},{},{},{},{},{},{},{},{},{},{},{}",
+                            "q,{},{},{},{},{},{},{},{},{},{},{},{},{},{},{}",
                             src_hex(src), if *udp { "u" } else { "t" }, hex(req), opcode,
                             rlen.is_some() as u8, rcode, hexname(qname.as_deref()), hexname(sos),
-                            edns as u8, rnd as u8, idx, dest, qhash, kc
+                            edns as u8, rnd as u8, idx, dest, qhash, kc, bare as u8
                         ));
                         if panicked {
                             break;
@@ -474,7 +481,7 @@ fn parse_case(a: &[&str]) -> Option<(Params, Vec<SStep>, (Vec<usize>, Vec<usize>
             steps.push(SStep::Wait(n.parse().ok()?));
         } else {
             let f: Vec<&str> = s.split(',').collect();
-            if f.len() != 15 || f[0] != "q" {
+            if f.len() != 16 || f[0] != "q" {
                 return None;
             }
             steps.push(SStep::Q { src: src_unhex(f[1])?, udp: f[2] == "u", req: unhex(f[3])? });
@@ -609,12 +616,43 @@ fn gen_request(rng: &mut Rng, class: usize) -> Vec<u8> {
         7 => encode_request(id, 0, &w(*rng.pick(&NOERROR_NAMES[..])), qt, 1, Some(1), Shape::Normal),
         8 => encode_request(id, *rng.pick(&[1u8, 2, 4, 5, 6, 15]), &w(*rng.pick(&NOERROR_NAMES[..])), qt, 1, edns, Shape::Normal),
         9 => encode_request(id, 0, &w(*rng.pick(&NOERROR_NAMES[..])), qt, 1, None, Shape::TwoQuestions),
+        11 => tsig_noquestion_request(id),
         _ => encode_request(id, 0, &w(*rng.pick(&NOERROR_NAMES[..])), qt, 1, edns, Shape::QrSet),
     }
 }
 
+/// D17: QDCOUNT = 0 and one TSIG record with a 255-octet key name and a 220-octet algorithm name.
+/// The key is unknown, the error TSIG of the response does not fit into 512 octets, so the
+/// handler answers with TC set, RCODE NOERROR and no question (RFC 8945 §5.3).
+fn tsig_noquestion_request(id: u16) -> Vec<u8> {
+    let label = |n: usize, c: u8| { let mut v = vec![n as u8]; v.extend(std::iter::repeat(c).take(n)); v };
+    let mut key = Vec::new();
+    for n in [63, 63, 63, 61] { key.extend(label(n, b'k')); }
+    key.push(0);
+    let mut alg = Vec::new();
+    for n in [63, 63, 63, 26] { alg.extend(label(n, b'g')); }
+    alg.push(0);
+    let mut rdata = alg;
+    rdata.extend_from_slice(&[0, 0, 0, 0, 0, 1]); // time signed
+    rdata.extend_from_slice(&300u16.to_be_bytes());
+    rdata.extend_from_slice(&6u16.to_be_bytes()); // MAC size
+    rdata.extend_from_slice(&[1, 2, 3, 4, 5, 6]);
+    rdata.extend_from_slice(&id.to_be_bytes());
+    rdata.extend_from_slice(&[0, 0, 0, 0]); // error, other len
+    let mut m = Vec::new();
+    m.extend_from_slice(&id.to_be_bytes());
+    m.extend_from_slice(&[0, 0, 0, 0, 0, 0, 0, 0, 0, 1]); // QUERY, QDCOUNT 0 … ARCOUNT 1
+    m.extend(key);
+    m.extend_from_slice(&250u16.to_be_bytes());
+    m.extend_from_slice(&255u16.to_be_bytes());
+    m.extend_from_slice(&[0, 0, 0, 0]);
+    m.extend_from_slice(&(rdata.len() as u16).to_be_bytes());
+    m.extend(rdata);
+    m
+}
+
 fn gen_class(rng: &mut Rng) -> usize {
-    *rng.pick(&[0, 0, 0, 0, 1, 1, 2, 2, 2, 3, 3, 4, 5, 6, 7, 8, 9, 10])
+    *rng.pick(&[0, 0, 0, 0, 1, 1, 2, 2, 2, 3, 3, 4, 5, 6, 7, 8, 9, 10, 11])
 }
 
 fn log_uniform(rng: &mut Rng, max_exp: u32) -> u64 {
@@ -724,10 +762,10 @@ fn gen_history(rng: &mut Rng) -> (Params, Vec<SStep>) {
         v6len: *rng.pick(&[56u8, 56, 64, 0, 48, 63, 1]),
         size: *rng.pick(&[1usize, 2, 3, 17, 1009, 1009, 1009, 65537]),
     };
-    let main_class = *rng.pick(&[0usize, 0, 1, 2, 3, 6]);
+    let main_class = *rng.pick(&[0usize, 0, 0, 1, 2, 3, 6, 11]);
     let main_req = gen_request(rng, main_class);
     let main_src = gen_src(rng);
-    let rate = match main_class { 0 | 1 => ne, 2 => nx, _ => er };
+    let rate = match main_class { 0 | 1 | 11 => ne, 2 => nx, _ => er };
     let cap = rate as u64 * window as u64;
     let others: Vec<(IpAddr, Vec<u8>)> = (0..rng.below(4)).map(|_| {
         let c = gen_class(rng);
@@ -835,7 +873,7 @@ fn emit_history(p: &Params, steps: &[SStep], em: &mut Emitter, discarded: &mut u
                 let parts: Vec<String> = steps.iter().map(|s| match s {
                     SStep::Shift(n) => format!("s{}", n),
                     SStep::Wait(n) => format!("w{}", n),
-                    SStep::Q { src, udp, req } => format!("q,{},{},{},0,0,0,-,-,0,0,0,0,0,0", src_hex(src), if *udp { "u" } else { "t" }, hex(req)),
+                    SStep::Q { src, udp, req } => format!("q,{},{},{},0,0,0,-,-,0,0,0,0,0,0,0", src_hex(src), if *udp { "u" } else { "t" }, hex(req)),
                 }).collect();
                 em.emit(&format!("rrl {} {}", p.text(), parts.join(";")), &e);
                 return;
@@ -867,6 +905,10 @@ pub fn gen_group(group: &str, rng: &mut Rng, thorough: bool, em: &mut Emitter) {
             let one = Params { ne: 1, nx: 1, er: 1, window: 1, ..base.clone() };
             emit_history(&one, &[q("a.example."), q("a.example."), SStep::Shift(1u64 << 32), q("a.example."), q("a.example.")], em, &mut discarded);
             emit_history(&one, &[q("a.example."), q("a.example."), SStep::Shift(1), q("a.example."), q("a.example.")], em, &mut discarded);
+            // D17: a NOERROR response without question (root-name stream), limit 1, slip 0 and slip 1
+            let t = SStep::Q { src: IpAddr::V4(Ipv4Addr::new(192, 0, 2, 1)), udp: true, req: tsig_noquestion_request(9) };
+            emit_history(&one, &[t.clone(), t.clone(), SStep::Shift(1), t.clone(), q("."), q(".")], em, &mut discarded);
+            emit_history(&Params { slip: 1, ..one.clone() }, &[t.clone(), t.clone(), q("a.example."), t.clone()], em, &mut discarded);
             // invalid configurations
             for bad in [
                 Params { ne: 0, ..one.clone() }, Params { nx: 0, ..one.clone() }, Params { er: 0, ..one.clone() },
